@@ -9,9 +9,10 @@
   Theorems are about `genTables` (regenerated from pkg/cast on every run).
 -/
 import Proofs.CastInt
+import Proofs.CastTyped
 
 namespace Jl.C10
-open Jl Cast
+open Jl Cast CastTyped
 
 set_option linter.unusedSimpArgs false
 
@@ -52,5 +53,39 @@ theorem int_other_rejected (ext : Ext) (tgt : IntTy) (tag : Nat) :
   cases tgt <;>
   simp [castNamed, callNamed, genTables, Gen.casters, findClause, typeOf, evalBranch, casterOfInt,
     failWith, Gen.sentinels, wrapsRoot]
+
+/-- The whole regenerated table passes the static checker of Proofs.CastTyped (every clause of
+    every caster for every type it lists, every default branch, the nil clauses, cast.To's
+    dispatch, all sentinels, the sizes of binary_ops.go): re-decided on every run. -/
+theorem tables_pass_checker : tablesOK genTables = true := genTables_ok
+
+/-- C10 for each of the 19 casters, every input of any dynamic type: no panic; a result that
+    is nil exactly when the input is nil and otherwise of exactly the promised type; or an
+    error wrapping the sentinel (`.ext` is the model's "stdlib answer not supplied" marker,
+    not an outcome of the code). -/
+theorem caster_total_and_typed (ext : Ext) (name : String) (hn : name ∈ casterNames) (v : Dyn) :
+    match castNamed genTables ext name v with
+    | .ok r => (r = .nil ↔ v = .nil) ∧ (v ≠ .nil → some (typeOf r) = resultTyOfCaster? name)
+    | .err e => e = .cast ∨ e = .ext
+    | .panic _ => False :=
+  gen_cast_C10 ext name hn v
+
+/-- C10 for `cast.To` with a sample of any type (`Ty.none` = nil sample: identity). -/
+theorem castTo_total_and_typed (ext : Ext) (t : Ty) (v : Dyn) :
+    match castTo genTables ext t v with
+    | .ok r => if t = .none then r = v else (r = .nil ↔ v = .nil) ∧ (v ≠ .nil → typeOf r = t)
+    | .err e => e = .cast ∨ e = .ext
+    | .panic _ => False :=
+  gen_castTo_C10 ext t v
+
+/-- The oracle applied to the implementation never fires on the model's results. -/
+theorem no_typed_violation (ext : Ext) (t : Ty) (ht : t ≠ .none) (v : Dyn) :
+    CastSpec.typedViolation t v (castTo genTables ext t v) = none ∨
+      castTo genTables ext t v = .err .ext :=
+  gen_castTo_no_violation ext t ht v
+
+/-! Non-vacuity -/
+example : "ToTime" ∈ casterNames := by decide
+example : castNamed genTables Ext.empty "ToBool" (.str [0x74]) = .ok (.bool true) := by rfl
 
 end Jl.C10
